@@ -136,10 +136,10 @@ func c12() {
 
 // c12Cases runs the C12 workload into dir.
 func c12Cases(out rec, run *vk.Run, dir string, unpriv bool) {
-	n := run.Pick(200, 20000)
+	n := run.Pick(200, 6000)
 	workers := workerCount()
 	if unpriv {
-		n = run.Pick(60, 3000)
+		n = run.Pick(60, 1000)
 		if workers > 4 {
 			workers = 4
 		}
@@ -214,6 +214,12 @@ func c12One(out rec, run *vk.Run, rng *rand.Rand, index int, root string, unpriv
 		}
 		for k := rng.Intn(4); k > 0 && len(cands) > 0; k-- {
 			c.Unreadable = append(c.Unreadable, cands[rng.Intn(len(cands))])
+		}
+		// executability carried by group/other bits only
+		for _, p := range cands {
+			if tree[p].Kind == fsx.KFile && rng.Intn(6) == 0 {
+				os.Chmod(fullPath(root, p), []os.FileMode{0o610, 0o601, 0o654, 0o645, 0o611}[rng.Intn(5)])
+			}
 		}
 		sort.Sort(sort.Reverse(sort.StringSlice(c.Unreadable)))
 		for _, p := range c.Unreadable {
